@@ -19,10 +19,10 @@ def run(ctx):
     ctx.build()
     nvec = words_selftest(ctx, widths=(32,))
     runs = []
-    cfgs = ["MC_WinEval_quick", "MC_WinEval_quick4"] if tier == "quick" else ["MC_WinEval_thorough"]
+    cfgs = ["MC_WinEval_quick", "MC_WinEval_quick4", "MC_WinEval_quickp"] if tier == "quick" else ["MC_WinEval_thorough"]
     reps = []
     for cfg in cfgs:
-        r = ctx.tlc("WinEval", cfg, coverage="separate", required_actions=EVAL_ACTIONS, timeout=6000)
+        r = ctx.tlc("MC_WinEval", cfg, coverage="separate", required_actions=EVAL_ACTIONS, timeout=6000)
         if r.violated:
             raise core.ToolFailure("design-level invariant %s of WinEval.tla is violated in the model" % r.violated)
         runs.append((cfg, r))
